@@ -373,6 +373,10 @@ func c18Paths(peer string, thorough bool) []string {
 			leaves = append(leaves, fmt.Sprintf("FS_%s_%s_abc", ip, po), fmt.Sprintf("FS_REMOTE_%s_%s_abc", ip, po))
 		}
 	}
+	// address-qualified names that really name the live endpoint but carry a malformed suffix
+	for _, sfx := range []string{"\x07abc", "-x", ".a", "a.b", "é1", " a", "a b1", "..1", strings.Repeat("a", 17), strings.Repeat("b", 200) + "9", "a\x7f1", "%2e1", "A_1"} {
+		leaves = append(leaves, fmt.Sprintf("FS_%s_%s_%s", h, p, sfx), fmt.Sprintf("FS_REMOTE_%s_%s_%s", h, p, sfx))
+	}
 	var out []string
 	for _, b := range bases {
 		for _, l := range leaves {
